@@ -205,7 +205,7 @@ def coq_cross_check(res, sampled):
 
 
 def history_of(rec):
-    return {k: rec[k] for k in ("id", "libraries", "initial", "lints", "steps") if k in rec}
+    return {k: rec[k] for k in ("id", "libraries", "initial", "lints", "numeric_std", "steps") if k in rec}
 
 
 def nontrivial(rec):
@@ -275,6 +275,7 @@ def main(tier, replay=None):
                     stats["steps"] += len(rec.get("steps", []))
                     for s in rec.get("steps", []):
                         stats["kinds"][s.get("kind", "?")] = stats["kinds"].get(s.get("kind", "?"), 0) + 1
+                        stats.setdefault("via", {})[s.get("via", "get") or "get"] = stats.setdefault("via", {}).get(s.get("via", "get") or "get", 0) + 1
                     for o in rec.get("obs", []):
                         if o.get("compared"):
                             stats["compared"] += 1
@@ -309,6 +310,11 @@ def main(tier, replay=None):
                             res.violation(what, {"kind": "input", "history": shr, "bad_step": bad, "diff": diff,
                                                  "original_id": rec["id"], "original_history": history_of(rec),
                                                  "replay_cmd": "./check C01 --replay <this file>"})
+                        continue
+                    if any(s.get("via") == "libedit" for s in rec.get("steps", [])):
+                        # units of std / ieee are filtered out of the hook trace: when their files are edited
+                        # the recorded added / removed sets are incomplete, so only the oracle applies
+                        stats["libedit_histories"] = stats.get("libedit_histories", 0) + 1
                         continue
                     probs = check_model(res, model, rec, stats, sampled, sample_every)
                     if probs:
@@ -350,13 +356,15 @@ def main(tier, replay=None):
     res.coverage["input_distribution"] = {k: stats[k] for k in (
         "histories", "steps", "compared", "skipped_dup", "kinds", "with_lint_diag", "with_unmapped",
         "with_missing_then_added", "steps_with_cycles", "model_steps", "model_partial_resets")}
+    res.coverage["input_distribution"]["update_via"] = stats.get("via", {})
+    res.coverage["input_distribution"]["histories_editing_std_or_ieee_files"] = stats.get("libedit_histories", 0)
     res.coverage["rule"] = (
         "corpus of minimised histories first (F2, F3, package-body rule, missing unit appears, use library.all, transitive chains, re-admitted duplicates); "
         "generated projects: 2-3 libraries, 3-6 files, units from a small name pool over 14 dependency shapes (use "
         "item / use all / selected name / use library.all / deferred constant + body in another file / entity + "
         "architecture in another file / entity, component and configuration instantiation / configuration / context "
         "declaration + reference / generic package + instance / same name different kind / mutual dependencies / "
-        "unused declarations and sensitivity-list lints / empty / broken text); a quarter of the histories are chain scenarios D <- U <- W <- X where D is what U is missing (use library.all / missing lib.pkg / package body / architecture or entity named in an instantiation, configuration in the chain) and the file of D is filled, emptied, restored, or a 3-unit file copied to a second file (all parked as duplicates) and the original emptied; also one user of the same unit name in two libraries (lib_b.pkg / lib_c.pkg, lib_b.ent(a1) / lib_c.ent(a1)) whose definitions come and go in either order, and `use lib.all` + entity lib.ent(rtl) with in-place edits that only move the architecture (shift steps: comment lines or a filler unit inserted above); histories of 1-8 (thorough 1-12) steps: "
+        "unused declarations and sensitivity-list lints / empty / broken text); a quarter of the histories are chain scenarios D <- U <- W <- X where D is what U is missing (use library.all / missing lib.pkg / package body / architecture or entity named in an instantiation, configuration in the chain) and the file of D is filled, emptied, restored, or a 3-unit file copied to a second file (all parked as duplicates) and the original emptied; also one user of the same unit name in two libraries (lib_b.pkg / lib_c.pkg, lib_b.ent(a1) / lib_c.ent(a1)) whose definitions come and go in either order, and `use lib.all` + entity lib.ent(rtl) with in-place edits that only move the architecture (shift steps: comment lines or a filler unit inserted above); a quarter of all updates reach the project through another Source object than get_source + change (Source::inline / Source::from_latin1_file, path absolute, relative to the current directory, './'-prefixed); histories that edit the files of std / ieee themselves (comment appended, original restored: standard, textio, env, std_logic_1164 + body, numeric_std + body) with users of the special-cased entities (matching operators on arrays of std_ulogic, time / string / boolean, 'image, to_string, textio, env, numeric_std); histories of 1-8 (thorough 1-12) steps: "
         "replace, empty, restore, unmapped file via Source::inline, swap as two steps; after every step diagnostics "
         "(code, file, range, message, related as multiset) and find_all_entity_references of every file vs a freshly "
         "loaded Project; steps whose fresh world has a unit name in two files of one library are skipped, not removed; "
